@@ -18050,6 +18050,41 @@ impl<SP: SignerProvider> FundedChannel<SP> {
 
 #[cfg(feature = "verif_hooks")]
 impl<SP: SignerProvider> FundedChannel<SP> {
+	/// Read-only dump of everything the closing_signed gate of this channel reads (C09): the raw
+	/// `channel_state`, the numbers of pending inbound / outbound HTLCs, whether an `update_fee` is pending,
+	/// `last_sent_closing_fee.is_some()`, the funder side, `expecting_peer_commitment_signed`, whether a
+	/// counterparty `closing_signed` is parked, `closing_signed_in_flight`, and what
+	/// `closing_negotiation_ready()` answers right now.
+	pub(crate) fn verif_closing_gate_dump(&self) -> String {
+		format!(
+			"state={} nin={} nout={} fee={} last={} outb={} expcs={} pendcs={} inflight={} ready={}",
+			self.context.channel_state.to_u32(),
+			self.context.pending_inbound_htlcs.len(),
+			self.context.pending_outbound_htlcs.len(),
+			self.context.pending_update_fee.is_some() as u8,
+			self.context.last_sent_closing_fee.is_some() as u8,
+			self.funding.is_outbound() as u8,
+			self.context.expecting_peer_commitment_signed as u8,
+			self.context.pending_counterparty_closing_signed.is_some() as u8,
+			self.context.closing_signed_in_flight as u8,
+			self.closing_negotiation_ready() as u8,
+		)
+	}
+
+	/// `closing_negotiation_ready()` evaluated as if `channel_state` were `state` (C09); the channel's own
+	/// state is put back before returning.
+	pub(crate) fn verif_closing_ready_for_state(&mut self, state: u32) -> Option<bool> {
+		let st = ChannelState::from_u32(state).ok()?;
+		let saved = self.context.channel_state;
+		self.context.channel_state = st;
+		let r = self.closing_negotiation_ready();
+		self.context.channel_state = saved;
+		Some(r)
+	}
+}
+
+#[cfg(feature = "verif_hooks")]
+impl<SP: SignerProvider> FundedChannel<SP> {
 	/// Verification hook (C10): the sources of this channel's outbound HTLCs as a stale-manager
 	/// force-close at startup would see them: `holding` = `AddHTLC` entries of the holding cell,
 	/// `announced-blocked` = `LocalAnnounced` HTLCs whose commitment sits in a blocked monitor update
